@@ -6,6 +6,7 @@ package rules
 
 import (
 	"fmt"
+	"sort"
 	"go/constant"
 	"go/token"
 	"strings"
@@ -316,12 +317,10 @@ func init() {
 			n := 0
 			var from ssa.Instruction
 			core.Instrs(fn, func(x ssa.Instruction) {
-				// the loop test `start < len(groupKeys)`
-				if cl, ok := x.(*ssa.Call); ok && from == nil {
-					if b, ok := cl.Call.Value.(*ssa.Builtin); ok && b.Name() == "len" && strings.Join(c.P.Prov().Desc(cl.Call.Args[0]), "|") == "param#2" {
-						if _, isPhi := cl.Block().Instrs[0].(*ssa.Phi); isPhi {
-							from = x
-						}
+				// the loop test `i < len(groupKeys)` (a counted loop or a range loop)
+				if bo, ok := x.(*ssa.BinOp); ok && from == nil && bo.Op == token.LSS {
+					if strings.Join(c.P.Prov().Desc(bo.Y), "|") == "len(param#2)" {
+						from = x
 					}
 				}
 			})
@@ -566,33 +565,41 @@ func init() {
 	extend("C19", "(R7) the signed comparable varint rejects exactly the values beyond the int64 range (strict at MaxInt64); decodeBytes starts from an empty output buffer; every mvcc key carries its version suffix.", func(c *core.Ctx) {
 		a := rule(c, "C19.R7")
 		if fn := a.fn(pkgCodec, "", "DecodeComparableVarint"); fn != nil {
+			// for every branch decided by a comparison of the decoded value with MaxInt64: the truth of
+			// "Max < v" on the edge that returns the error
 			var forms []string
+			isMax := func(v ssa.Value) bool {
+				cst, ok := core.Strip(v).(*ssa.Const)
+				if !ok || cst.Value == nil || cst.Value.Kind() != constant.Int {
+					return false
+				}
+				u, ok := constant.Uint64Val(cst.Value)
+				return ok && u == 1<<63-1
+			}
 			core.Instrs(fn, func(in ssa.Instruction) {
-				b, ok := in.(*ssa.BinOp)
+				bo, ok := in.(*ssa.BinOp)
 				if !ok {
 					return
 				}
-				x, y, neg, isOrd := lessForm(b)
-				if !isOrd {
+				x, y, ng, isOrd := lessForm(bo)
+				if !isOrd || (!isMax(x) && !isMax(y)) {
 					return
 				}
-				isMax := func(v ssa.Value) bool {
-					cst, ok := core.Strip(v).(*ssa.Const)
-					if !ok || cst.Value == nil || cst.Value.Kind() != constant.Int {
-						return false
+				if isMax(y) {
+					forms = append(forms, "v<Max (a test that is strict on the wrong side)")
+					return
+				}
+				// a negation applied to the comparison belongs to it
+				if refs := bo.Referrers(); refs != nil && len(*refs) == 1 {
+					if u, ok := (*refs)[0].(*ssa.UnOp); ok && u.Op == token.NOT {
+						ng = !ng
 					}
-					u, ok := constant.Uint64Val(cst.Value)
-					return ok && u == 1<<63-1
 				}
-				switch {
-				case isMax(x):
-					forms = append(forms, fmt.Sprintf("max<v:%v", neg))
-				case isMax(y):
-					forms = append(forms, fmt.Sprintf("v<max:%v", neg))
-				}
+				forms = append(forms, fmt.Sprintf("error when Max<v is %v", !ng))
 			})
-			got := strings.Join(forms, " ")
-			a.checkAt(got == "max<v:false max<v:true", fname(fn)+" range tests at MaxInt64", a.fnPos(fn), got, "the tests against math.MaxInt64 are not `v > Max` (positive tag) and `v <= Max` (negative tag): "+got+": the boundary value is rejected or a value beyond it accepted")
+			sort.Strings(forms)
+			got := strings.Join(forms, "; ")
+			a.checkAt(got == "error when Max<v is false; error when Max<v is true", fname(fn)+" range tests at MaxInt64", a.fnPos(fn), got, "the decoded magnitude is not rejected exactly when it is beyond the int64 range (positive tag: v > Max; negative tag: v <= Max): "+got)
 		}
 		if fn := a.fn(pkgCodec, "", "decodeBytes"); fn != nil {
 			n := 0
